@@ -446,6 +446,63 @@ pub fn scmp_class(e: &ScmpErrorMessage) -> String {
     }
 }
 
+fn classify_step(w: &World, o: &pocketscion::network::scion::simulator::ScionNetworkSimIterOutput) -> SimStep {
+    let (k, class, egress) = match &o.action {
+        AsRoutingAction::ForwardNextHop { egress_interface_id } => ("fwd", String::new(), *egress_interface_id),
+        AsRoutingAction::Drop => ("drop", "malformed".to_string(), 0),
+        AsRoutingAction::Local(LocalAsRoutingAction::ForwardLocal) => ("deliver", String::new(), 0),
+        AsRoutingAction::Local(LocalAsRoutingAction::SendSCMPErrorResponse(e)) => ("reject", scmp_class(e), 0),
+        AsRoutingAction::Local(LocalAsRoutingAction::ForwardExternal { sim_egress_interface_id, .. }) => ("external", String::new(), *sim_egress_interface_id),
+        AsRoutingAction::Local(_) => ("other", "scmp-request".to_string(), 0),
+    };
+    SimStep { asn: w.id(o.at_as), ifin: o.at_ingress_interface, k: k.into(), class, egress }
+}
+
+/// One AS step at a time, with the link state `sched[n]` (1-based link ids that are down; the last entry stays in
+/// force) applied before the n-th step: links failing / recovering while the packet travels.  Each step is a fresh
+/// `ScionNetworkSim::iter` started where the previous one forwarded the packet to.
+pub fn simulate_sched(w: &mut World, pkt: &mut ScionRawPacketView, now: u32, at: u32, ifin: u16, sched: &[Vec<usize>], max_steps: usize) -> SimOut {
+    let mut steps: Vec<SimStep> = vec![];
+    let mut panic = None;
+    let (mut cur_as, mut cur_if) = (w.ia[at as usize], ifin);
+    for n in 0..max_steps {
+        let down: Vec<usize> = if sched.is_empty() { vec![] } else { sched[n.min(sched.len() - 1)].clone() };
+        w.set_links(&down);
+        let wr: &World = w;
+        let pk: &mut ScionRawPacketView = &mut *pkt;
+        let r = vh_core::catch(|| {
+            let mut it = match ScionNetworkSim::iter::<SpecRoutingLogic>(&wr.topo, pk, ScionNetworkTime::from_timestamp_secs(now), cur_as, cur_if, false) {
+                Ok(it) => it,
+                Err(e) => return (SimStep { asn: wr.id(cur_as), ifin: cur_if, k: "error".into(), class: format!("{e}"), egress: 0 }, cur_as, cur_if),
+            };
+            match it.next() {
+                None => (SimStep { asn: wr.id(cur_as), ifin: cur_if, k: "none".into(), class: String::new(), egress: 0 }, cur_as, cur_if),
+                Some(Err(e)) => (SimStep { asn: wr.id(cur_as), ifin: cur_if, k: "error".into(), class: format!("{e:#}"), egress: 0 }, cur_as, cur_if),
+                Some(Ok(o)) => {
+                    let st = classify_step(wr, &o);
+                    (st, it.get_processing_as(), it.get_processing_interface_id())
+                }
+            }
+        });
+        match r {
+            Err(p) => {
+                panic = Some(p);
+                break;
+            }
+            Ok((st, na, ni)) => {
+                let fwd = st.k == "fwd";
+                steps.push(st);
+                if !fwd {
+                    break;
+                }
+                cur_as = na;
+                cur_if = ni;
+            }
+        }
+    }
+    SimOut { steps, panic }
+}
+
 /// Runs the real simulator (`ScionNetworkSim::iter::<SpecRoutingLogic>`, real keys, MACs verified) for at most
 /// `max_steps` AS steps on `pkt` (modified in place).
 pub fn simulate(w: &World, pkt: &mut ScionRawPacketView, now: u32, at: u32, ifin: u16, max_steps: usize) -> SimOut {
@@ -465,17 +522,7 @@ pub fn simulate(w: &World, pkt: &mut ScionRawPacketView, now: u32, at: u32, ifin
                     steps.push(SimStep { asn: a, ifin: i, k: "error".into(), class: format!("{e:#}"), egress: 0 });
                     break;
                 }
-                Ok(o) => {
-                    let (k, class, egress) = match &o.action {
-                        AsRoutingAction::ForwardNextHop { egress_interface_id } => ("fwd", String::new(), *egress_interface_id),
-                        AsRoutingAction::Drop => ("drop", "malformed".to_string(), 0),
-                        AsRoutingAction::Local(LocalAsRoutingAction::ForwardLocal) => ("deliver", String::new(), 0),
-                        AsRoutingAction::Local(LocalAsRoutingAction::SendSCMPErrorResponse(e)) => ("reject", scmp_class(e), 0),
-                        AsRoutingAction::Local(LocalAsRoutingAction::ForwardExternal { sim_egress_interface_id, .. }) => ("external", String::new(), *sim_egress_interface_id),
-                        AsRoutingAction::Local(_) => ("other", "scmp-request".to_string(), 0),
-                    };
-                    steps.push(SimStep { asn: w.id(o.at_as), ifin: o.at_ingress_interface, k: k.into(), class, egress });
-                }
+                Ok(o) => steps.push(classify_step(w, &o)),
             }
         }
     });
